@@ -23,8 +23,49 @@ func vNSFind(name string) int {
 	return -1
 }
 
+// aliases of the namespace: vLinkNames[i] is a symbolic link to vLinkTargets[i]; folders are listed in vNSFolders
+var vLinkNames, vLinkTargets, vNSFolders []string
+
+func vLinkIndex(name string) int {
+	for i, n := range vLinkNames {
+		if n == name {
+			return i
+		}
+	}
+	return -1
+}
+
+// lstat: describes the link itself
+func vStub_os_Lstat(name string) (fs.FileInfo, error) {
+	name = filepath.Clean(name)
+	if i := vLinkIndex(name); i >= 0 {
+		return &vInfo{name: filepath.Base(name), size: int64(len(vLinkTargets[i])), link: true}, nil
+	}
+	return vStub_os_Stat(name)
+}
+
+func vStub_os_Readlink(name string) (string, error) {
+	if i := vLinkIndex(filepath.Clean(name)); i >= 0 {
+		return vLinkTargets[i], nil
+	}
+	return "", fs.ErrInvalid
+}
+
+// stat: follows links, however many there are in a row
 func vStub_os_Stat(name string) (fs.FileInfo, error) {
 	name = filepath.Clean(name) // the kernel resolves "a//b" like "a/b"
+	for hops := 0; hops < 8; hops++ {
+		i := vLinkIndex(name)
+		if i < 0 {
+			break
+		}
+		name = filepath.Clean(vLinkTargets[i])
+	}
+	for _, d := range vNSFolders {
+		if d == name {
+			return &vInfo{name: filepath.Base(name), dir: true}, nil
+		}
+	}
 	for i, n := range vNSNames {
 		if n == name {
 			sz := len(vNSData[i])
